@@ -64,11 +64,9 @@ Inductive ev :=
 | Assigned                          (* a new TopicPartitionState (assign() / group assignment) *)
 | CommittedReq                      (* _update_fetch_positions: await tp_state.fetch_committed() *)
 | LookupSent                        (* the coordinator sends OffsetFetch for this partition *)
-| LookupErr                         (* that request failed (retriable error / timeout / no coordinator) *)
+| LookupErr                         (* that request failed (retriable error in a partition or — OffsetFetch
+                                       v2+ — in the top-level error_code / timeout / no coordinator) *)
 | LookupOk (c : option Z)           (* update_committed(c): every waiting future is resolved *)
-| LookupSwallowed                   (* the OffsetFetch (v2+) reply carries a group-level error in its
-                                       top-level error_code and no partitions; the client does not look
-                                       at that field: every waiting future is resolved with "no offset" *)
 | CommittedResp (c : option Z)      (* the awaiting task resumes with c *)
 | ListOffsetsSent (s : strat)       (* _proc_offset_request with this partition's strategy *)
 | ListOffsetsResp (s : strat) (lstart hw lso : Z)
@@ -140,11 +138,6 @@ Definition step (c : cfg) (s : st) (e : ev) : option st :=
         Some (mkSt (pos s) (rst s) O (resolved s ++ repeat v (nwait s)) false (lo s) (err s)
                    (origin_ s) (first s) (oor s) (surfaced s))
       else None
-  | LookupSwallowed =>
-      if c_group c && looking s && negb (Nat.eqb (nwait s) O) then
-        Some (mkSt (pos s) (rst s) O (resolved s ++ repeat None (nwait s)) false (lo s) (err s)
-                   (origin_ s) (first s) (oor s) (surfaced s))
-      else None
   | CommittedResp v =>
       match resolved s with
       | v' :: rest =>
@@ -183,17 +176,16 @@ Definition step (c : cfg) (s : st) (e : ev) : option st :=
   | ListOffsetsResp x lstart hw lso =>
       match remove_strat x (lo s) with
       | Some los =>
-          if is_some (rst s) then
-            (* `if tp_state.awaiting_reset: tp_state.reset_to(offset)` — whatever strategy is
-               pending NOW, the offset found for the strategy asked THEN is taken *)
+          (* applied only `if tp_state.awaiting_reset and tp_state.reset_strategy == <the strategy sent>` *)
+          if match rst s with Some y => strat_eqb x y | None => false end then
             Some (set_pos s (answer (c_iso c) x lstart hw lso) (OReset x lstart hw lso)
                           (nwait s) (resolved s) (looking s) los)
           else None
       | None => None
       end
   | ListOffsetsIgnored x =>
-      (* no reset pending any more (a seek() won) — or, what a repaired client would do, another
-         strategy is pending now *)
+      (* no reset pending any more (a seek() won), or another strategy is pending now (a
+         seek_to_*() won): the next iteration looks up the right one *)
       match remove_strat x (lo s) with
       | Some los =>
           if match rst s with None => true | Some y => negb (strat_eqb x y) end then
@@ -265,8 +257,6 @@ Fixpoint first_reject (c : cfg) (s : st) (tr : list ev) (i : nat) : option nat :
 (* classes of events *)
 Definition user_move (e : ev) : bool :=          (* the application repositions *)
   match e with Seek _ | SeekTo _ => true | _ => false end.
-Definition swallowed (e : ev) : bool :=          (* the defect: a group-level error read as "no offset" *)
-  match e with LookupSwallowed => true | _ => false end.
 Definition quiet_ev (e : ev) : bool :=           (* nothing that may legitimately move a sought position *)
   match e with Seek _ | SeekTo _ | Consumed _ | OutOfRange _ | Assigned => false | _ => true end.
 
